@@ -430,10 +430,18 @@ func popOrWaitWindow(st *vx.Stats) {
 func freeRuns(r *vx.Rng, st *vx.Stats, n int) {
 	misuse(st)
 	popOrWaitWindow(st)
+	// a kind of run that failed once is not repeated (a stall costs freeTimeout; the failure is already reported)
+	kinds := []func(*vx.Rng, *vx.Stats, int){freeSM, freeDAG, freeCounter, freeStack}
+	dead := make([]bool, len(kinds))
 	for i := 0; i < n; i++ {
-		freeSM(r.Fork(), st, i)
-		freeDAG(r.Fork(), st, i)
-		freeCounter(r.Fork(), st, i)
-		freeStack(r.Fork(), st, i)
+		for k, f := range kinds {
+			rr := r.Fork()
+			if dead[k] {
+				continue
+			}
+			before := len(st.OracleFailures)
+			f(rr, st, i)
+			dead[k] = len(st.OracleFailures) > before
+		}
 	}
 }
